@@ -32,6 +32,10 @@ func runC02(c *Ctx, r *Report) {
 	loopsComplete(c, r, "R-C02.8", func(fn *Fn) bool { return rootNamed(fn, "Append", "Join", "FindHeads", "NewLog") }, "a predecessor link is not indexed or a candidate head is not examined: referenced entries stay heads, or heads are missed")
 	r.Doc("R-C02.10", "what a merge takes from the other log is collected by walking from the heads it read: every key filed in the candidate set derives from the heads handed in or from the predecessor links of a candidate (a plain set difference of the two indexes also takes entries the read heads do not cover, and the merged heads then miss them)")
 	candidatesWalkFromHeads(c, r, "R-C02.10")
+	r.Doc("R-C02.11", "the head set is built through a constructor that files every entry that exists (nothing is left out for its payload, version or any other content)")
+	collectionKeepsAll(c, r, "R-C02.11")
+	r.Doc("R-C02.12", "a log's index is its own: OrderedMap.Copy returns a newly built map on every path and NewLog stores a copy of the entries it is given")
+	orderedMapCopyFresh(c, r, "R-C02.12")
 	r.Doc("R-C02.9", "the predecessor index that decides which entries are referenced is keyed by predecessor links of the filed entry (not by its references, not by another list)")
 	indexKeys(c, r, "R-C02.9")
 
